@@ -37,7 +37,19 @@ SEEDS = ["(a b . c)", "#(1 2 #(3))", "#u8(1 2 255)", "\"str\\n\\x41;\"", "#\\x41
 def escape_runs(rng):
     """long uninterrupted runs of escapes / tokens crossing the reader's internal buffer sizes"""
     n = rng.choice([1, 7, 31, 32, 33, 63, 64, 65, 127, 128, 129, 200, 1000])
-    k = rng.randrange(6)
+    k = rng.randrange(8)
+    if k >= 6:
+        # datum labels climbing past the sizes of the reader's label table (24, 48, 96, ...), then references / definitions
+        # of labels that were never defined or lie far outside the table
+        labs, cur = [], 0
+        top = rng.choice([22, 23, 24, 25, 47, 48, 49, 95, 96, 97, 200])
+        while cur <= top:
+            labs.append(cur)
+            cur += rng.choice([1, 1, 7, 15, 16])
+        body = " ".join("#%d=x%d" % (l, l) for l in labs)
+        tail = rng.choice(["#%d#" % (top + d) for d in (1, 2, 16, 17, 100, 300, 5000)] + ["#%d=y" % (top + d) for d in (15, 16, 17, 40, 300, 5000)]
+                          + ["#%d#" % rng.choice(labs), "#%d# #%d#" % (labs[-1], labs[0])])
+        return "(%s %s)" % (body, tail)
     if k == 0:
         return '"' + "\\x1F600;" * n + '"'
     if k == 1:
